@@ -1,6 +1,7 @@
 import SccacheModel.Model.ServerL1
 import SccacheModel.Model.Spec
 import SccacheModel.Proofs.LruReadOnly
+import SccacheModel.Proofs.Config
 
 /-! # C15 — read-only cache mode never adds, changes or removes entries
 
@@ -9,6 +10,8 @@ server wraps the storage in `ReadOnlyStorage`; what remains is lookup (`get` = i
 start-up scan.  L0: every store refused ⇒ the cache content never changes; L1: a refused store never changes a reply;
 L2 (`Model/Lru.lean`): lookups never change the set of files; the start-up scan keeps every file **iff** the
 directory is within its size limit (finding F-C15-a otherwise).
+Configuration (`Model/Config.lean`, tied to the real `Config::load` by `h_config`): *when* the cache is read-only —
+`config_read_only_from_env`, `config_read_only_from_file_partial`, the open finding `config_file_read_only_dropped_witness`.
 Tie: `h_lru` (get / reopen steps), `h_l1` (store_ok = false rows), system harness `tools/sys_c15.py` (recursive
 listing with content digests of a pre-populated cache before and after a request history under READ_ONLY). -/
 
@@ -46,5 +49,52 @@ theorem reopen_keeps_files_partial (c : LruM.Lru) (order : List (LruM.Key × Nat
     the start-up scan — also when the cache is then used read-only -/
 theorem reopen_evicts_witness : (({ cap := 15 } : LruM.Lru).reopen [(1, 10), (2, 10)]).files = [(2, 10)] :=
   LruM.Lru.reopen_evicts_witness
+
+/-! ## when is the cache configured read-only (`ConfigM`, the real `Config::load`) -/
+open ConfigM in
+/-- `SCCACHE_LOCAL_RW_MODE=READ_ONLY` makes the loaded configuration read-only (and the server wrap its storage in
+    `ReadOnlyStorage`) for **every** value of the other variables and **every** `[cache.disk]` section of the file -/
+theorem config_read_only_from_env (e : Env) (f : Option FileDisk) (d : Disk) (hl : load e f = .ok d)
+    (hr : e.rw = some sReadOnly) : servesReadOnly d = true := by
+  have := ConfigM.env_rw_effective e f d hl (Or.inl hr)
+  simp [servesReadOnly, this, hr]
+
+open ConfigM in
+/-- … and `READ_WRITE` in the environment overrides a read-only file -/
+theorem config_read_write_from_env (e : Env) (f : Option FileDisk) (d : Disk) (hl : load e f = .ok d)
+    (hr : e.rw = some sReadWrite) : servesReadOnly d = false := by
+  have := ConfigM.env_rw_effective e f d hl (Or.inr hr)
+  have hne : e.rw ≠ some sReadOnly := by rw [hr]; intro h; injection h with h; exact ConfigM.rw_ne h
+  simp [servesReadOnly, this, hne]
+
+open ConfigM in
+/-- `rw_mode = "READ_ONLY"` in the file is effective **provided no disk-cache variable counts as set** (partial: see the
+    witness below for what happens otherwise) -/
+theorem config_read_only_from_file_partial (e : Env) (f : FileDisk) (hf : f.rw = some .readOnly)
+    (h1 : e.dir = none) (h2 : sizeOpt (envSize e) = none) (h2' : envSize e ≠ .overflow) (h3 : boolFromEnv e.direct = .ok none)
+    (h4 : ¬ (e.rw = some sReadOnly ∨ e.rw = some sReadWrite)) :
+    ∃ d, load e (some f) = .ok d ∧ servesReadOnly d = true := by
+  have hn := (ConfigM.envDisk_none_iff e).mpr ⟨h1, h2, h2', h3, h4⟩
+  refine ⟨fileDisk f, ?_, ?_⟩
+  · rw [ConfigM.load_env_none e (some f) hn]; rfl
+  · simp [servesReadOnly, fileDisk, hf]
+
+open ConfigM in
+/-- F-C15-b (negative, kernel-checked, open): the environment section replaces the file's `[cache.disk]` **as a whole**.
+    With `rw_mode = "READ_ONLY"` in the file and only `SCCACHE_DIR` (or `SCCACHE_CACHE_SIZE`, `SCCACHE_DIRECT`) in the
+    environment the cache is read-write — and the file's size and preprocessor-mode options are gone too. -/
+theorem config_file_read_only_dropped_witness :
+    let e : Env := { dir := some [47, 99] }
+    let f : FileDisk := { size := some 5, rw := some .readOnly, pp := some { use := some false } }
+    load e (some f) = .ok ⟨some [47, 99], tenGigs, PP.activated, .readWrite⟩ := by decide
+
+open ConfigM in
+/-- a mis-spelt mode (`read_only`) is not an override: the file's (or the default) mode stays -/
+theorem config_invalid_mode_is_ignored :
+    load { rw := some [114, 111] } none = .ok Disk.dflt ∧
+    load { rw := some [114, 111] } (some { rw := some .readOnly }) = .ok { Disk.dflt with rw := .readOnly } := by decide
+
+/-- non-vacuity of `config_read_only_from_file_partial` -/
+example : ConfigM.sizeOpt (ConfigM.envSize {}) = none ∧ ConfigM.boolFromEnv ({} : ConfigM.Env).direct = .ok none := ⟨rfl, rfl⟩
 
 end C15
